@@ -93,6 +93,7 @@ impl ExternalPersistHelper {
     ensures
         // the client tag is the shared MAC under the one-byte role nonce 0x01 ...
         r@ == hmac_sha256(self.shared_secret@, framing(self.shared_secret@, seq![1u8], recs_of(*kvs))),   //[C17.client-hmac.role-nonce-01]
+// the role nonce is written in place (`&[0x01]`); another spelling of the one-byte slice makes this unit undecided
 //@sub /&\[0x01\]/ => vx_role_nonce(0x01).as_slice()
 //@end
 
